@@ -372,6 +372,10 @@ def run(ctx, rep):
     check_cmp(fx, rep)
     check_divmod(fx, rep, 'i256_div')
     check_divmod(fx, rep, 'i256_mod')
+    # the gas EXP charges is exp_cost(spec, exponent): its table per fork and log2floor (C14's rules)
+    import engine
+    import c14
+    c14.run_exp(ctx, engine.SubReport(rep, 'C14'))
     rep.assume('ruint primitives (wrapping_add/sub/mul/div/rem, add_mod, mul_mod, pow, <<, >>, arithmetic_shr, bit, byte, wrapping_neg, cmp) compute what their documentation states; usize is 64 bits')
 
 
